@@ -1020,8 +1020,15 @@ func (m *VM) doDatalog(rec *Rec, op *Op) {
 		}
 	}
 	start := time.Now()
+	step0 := m.Sim.Step
 	err := w.Run(syms)
 	rec.setI("elapsed_ns", int(time.Since(start)))
+	// how many scheduling steps the evaluation's goroutines were given after a clock stall had
+	// carried this very call past its deadline, before the call returned
+	if lim := op.Lim; lim != nil && lim.MaxDurNs > 0 && m.Sim.LastStallStep > step0 && m.Sim.LastStallEnd.Sub(start) >= time.Duration(lim.MaxDurNs) {
+		rec.setI("steps_past_deadline", m.Sim.Step-m.Sim.LastStallStep)
+		rec.setI("past_deadline", 1)
+	}
 	rec.Err = errStr(err)
 	rec.Class = ClassifyAuthz(err)
 	if err == nil {
